@@ -190,8 +190,15 @@ def solve_read_class(c, rng):
             p = MAXENTRY + L
         lw = rng.randint(max(MINLEN, MAXENTRY - r0 - 1), MAXENTRY - 1)   # the line after X: no line end
         return pre + [L, lw] + fill(BUFSIZE - r0 - lw - 1, rng)          # in (b0, b0 + MaxEntry) but p
-    # buffer start bs > 0 = Size - 1 - BufSize (the first buffer of the backward read)
     delta = {"lf": 0, "last": 1, "first": -1, "inside": -rng.randint(2, 40)}[c["on"]]   # a newline at bs + delta
+    if c["kind"] == "reinit":
+        # second buffer: the first one starts at b0 = Size - 1 - BufSize; X ends at p = b0 + r0 and is
+        # the first line end below b0 + MaxEntry (the line W after it is long enough); the new buffer
+        # starts at p - BufSize, delta bytes after the newline that ends the head
+        r0 = {"0": 0, "1": 1, "mid": 5000, "top": MAXENTRY - 1}[c["trig"]]
+        lw = rng.randint(max(MINLEN, MAXENTRY - r0 - 1), MAXENTRY - 1)
+        return head + fill(BUFSIZE - delta - L - 1, rng) + [L, lw] + fill(BUFSIZE - r0 - lw - 1, rng)
+    # buffer start bs > 0 = Size - 1 - BufSize (the first buffer of the backward read)
     if c["kind"] == "nil":
         # X is the last line; head ends with the newline at bs + delta
         return head + fill(BUFSIZE - L - 1 - delta, rng) + [L]
@@ -727,8 +734,21 @@ def tlc_generate(ctx):
     Pick only) and every scaled layout (QLogFileAlgMC, Pick only).  Seconds."""
     tier = "quick" if ctx.quick else "thorough"
     res = {}
-    res["pgen"] = ctx.tlc("QLogFileProps", "QLogFileProps.gen%s.cfg" % tier, workers=1, timeout=300)
-    res["gen"] = ctx.tlc("QLogFileAlgMC", "QLogFileAlgMC.gen.cfg", workers=1, timeout=300)
+
+    def pgen():
+        res["pgen"] = ctx.tlc("QLogFileProps", "QLogFileProps.gen%s.cfg" % tier, workers=1, timeout=300)
+
+    def gen():
+        res["gen"] = ctx.tlc("QLogFileAlgMC", "QLogFileAlgMC.gen.cfg", workers=2, timeout=300)
+
+    def cls():
+        # read-alignment classes of longer scaled files (7 lines quick / 8 thorough): files of more
+        # than 2 x BufSize are needed for a re-initialisation that does not land on the file start
+        res["cls"] = ctx.tlc("QLogFileAlgMC", "QLogFileAlgMC.classes%s.cfg" % tier, workers=4, timeout=600)
+
+    with cf.ThreadPoolExecutor(max_workers=3) as ex:
+        for f in [ex.submit(g) for g in (pgen, gen, cls)]:
+            f.result()
     return res
 
 
@@ -869,7 +889,7 @@ def run_binding(ctx, rng, tier, res, edge_vecs, layouts, mc_futs):
                 d["split"] = special[i][1]
         descs.append(d)
     # ---- alignment classes of the scaled universe, each realised by a solved real-size file
-    rc_want = {ckey(c) for v in res["gen"]["vectors"] for c in v["rc"]}
+    rc_want = {ckey(c) for k in ("gen", "cls") for v in res[k]["vectors"] for c in v["rc"]}
     pc_want = {ckey(c) for v in res["gen"]["vectors"] for c in v["pc"]}
     arng = random.Random(ctx.seed * 104729 + 7)
     rc_unsolved = []
